@@ -1080,6 +1080,10 @@ impl<'de> serde::de::Visitor<'de> for ParsedValueSeed<'_> {
     where
         E: serde::de::Error,
     {
+        if self.in_range {
+            // a range branch can't be defaulted: `[[null, 0], ["x"]]`
+            return Err(serde::de::Error::custom(Error::RangeNullValue));
+        }
         Ok(ParsedValue::Default)
     }
 
